@@ -534,6 +534,44 @@ pub fn run(data: &[u8], ctx: &mut Ctx) -> Outcome {
         check!(ctx, !matches!(r, Ok(true)), "decorated", "C09/decorated-signed-assertion", "a key that did not sign verifies");
         ctx.nontrivial = true;
     }
+    // --- the 'signed' predicate itself obscured after signing (lookups go by digest), and one key signing
+    // twice (a threshold counts signers, not signatures). Drawn last.
+    if src.chance(64) {
+        let action = match src.below(3) {
+            0 => Obs::Elide,
+            1 => Obs::Encrypt,
+            _ => Obs::Compress,
+        };
+        let hidden = nopanic!(ctx, signed.elide_removing_target_with_action(&Envelope::new(known_values::SIGNED), &action_of(action)), "predicate-obscured", "C09/predicate-obscured");
+        check!(ctx, hidden.digest() == signed.digest(), "predicate-obscured", "C09/predicate-obscured", "obscuring the 'signed' predicate changed the digest");
+        ctx.class(&format!("signed-predicate-obscured:{:?}", action));
+        for &i in &signers {
+            let k = &pool.sig[i];
+            let r = nopanic!(ctx, hidden.has_signature_from(&k.public), "predicate-obscured", "C09/predicate-obscured");
+            check!(ctx, matches!(r, Ok(true)), "predicate-obscured", "C09/predicate-obscured", "after {:?} of the predicate 'signed' (no digest changed) the signature by {}#{} is no longer found: {:?}", action, k.scheme, i, r.as_ref().map_err(|x| x.to_string()));
+        }
+        let vs: Vec<&dyn Verifier> = signers.iter().map(|i| &pool.sig[*i].public as &dyn Verifier).collect();
+        let r = nopanic!(ctx, hidden.has_signatures_from(&vs), "predicate-obscured", "C09/predicate-obscured");
+        check!(ctx, matches!(r, Ok(true)), "predicate-obscured", "C09/predicate-obscured", "has_signatures_from over all signers is not true after the predicate was obscured");
+        // one key signs twice
+        let k0 = &pool.sig[signers[0]];
+        let twice = nopanic!(ctx, signed.add_signature_opt(&k0.private, k0.options(), None), "double-signer", "C09/double-signer");
+        let twice = nopanic!(ctx, twice.add_signature_opt(&k0.private, k0.options(), None), "double-signer", "C09/double-signer");
+        if !nopanic!(ctx, unreadable_fresh_signature(&twice), "double-signer", "C09/double-signer") {
+            let n_sigs = twice.assertions_with_predicate(known_values::SIGNED).len();
+            ctx.class(if n_sigs > signers.len() + 1 { "double-signer:two-distinct-signatures" } else { "double-signer:deterministic" });
+            let outsider_i = (0..pool.sig.len()).find(|i| !signers.contains(i)).unwrap();
+            let list: Vec<&dyn Verifier> = vec![&k0.public, &pool.sig[outsider_i].public];
+            for t in [None, Some(1usize), Some(2)] {
+                let want = matches!(t, Some(1));
+                let r = nopanic!(ctx, twice.has_signatures_from_threshold(&list, t), "double-signer", "C09/double-signer");
+                check!(ctx, matches!(r, Ok(x) if x == want), "double-signer", "C09/double-signer", "keys [signer, non-signer], the signer signed {} times: has_signatures_from_threshold(t={:?}) = {:?}, expected {}", n_sigs - signers.len() + 1, t, r.as_ref().map_err(|x| x.to_string()), want);
+                let v = nopanic!(ctx, twice.verify_signatures_from_threshold(&list, t), "double-signer", "C09/double-signer");
+                check!(ctx, v.is_ok() == want, "double-signer", "C09/double-signer", "verify_signatures_from_threshold(t={:?}) is {} with one signer of two keys", t, if v.is_ok() { "Ok" } else { "Err" });
+            }
+        }
+        ctx.nontrivial = true;
+    }
     if signers.len() >= 2 || changed {
         ctx.nontrivial = true;
     }
